@@ -92,7 +92,8 @@ type scenario struct {
 	id       string // "custom" | "golang" | predefined id name
 	hrr      bool
 	ticket   bool // server sends a session ticket after completion (client post-handshake HandleData)
-	stress   bool // partial drains and random extra calls: Go-side oracle only
+	stress   bool // driver "random"
+	driver   string // how the QUIC layer drives the API: drain-all | eager | feed-first | random
 	cutStep  int  // step at which cancel/close/wrong-level is injected
 	tpPreset bool // golang: SetTransportParameters before Start
 }
@@ -102,6 +103,8 @@ var injections = []string{
 	"client-verify-fail", "cancel-before-start", "cancel-mid", "close-mid", "wrong-level", "predefined-no-qtp",
 	"golang", "golang-close-waiting-tp", "golang-cancel-waiting-tp", "golang-no-servername", "ticket",
 }
+
+var drivers = []string{"drain-all", "eager", "feed-first", "random"}
 
 var predefined = map[string]utls.ClientHelloID{
 	"Chrome_133": utls.HelloChrome_133, "Firefox_120": utls.HelloFirefox_120, "Chrome_120": utls.HelloChrome_120,
@@ -138,7 +141,8 @@ func (e ev) coq() string {
 type obs struct {
 	call   string // KStart ...
 	ret    string // RNil | RErr | (REvent ...)
-	events []ev   // events drained right after a blocking call
+	events  []ev // events created during this blocking call (filled in by coqCase from the global stream)
+	created int  // number of events the call created (pending after - pending before)
 	block  bool   // a call that can block on the channels
 	noSync bool   // SetTransportParameters before Start: touches no channel
 	errTxt string
@@ -191,12 +195,13 @@ func retOf(err error) string {
 
 func (cl *client) blocking(call, name string, f func() error) (error, bool) {
 	cl.calls = append(cl.calls, name)
+	before := cl.q.VerifPendingEvents()
 	err, hung := guard(f)
 	if hung {
 		cl.hung = name
 		return nil, true
 	}
-	o := obs{call: call, ret: retOf(err), block: true}
+	o := obs{call: call, ret: retOf(err), block: true, created: cl.q.VerifPendingEvents() - before}
 	if err != nil {
 		o.errTxt = err.Error()
 	}
@@ -204,33 +209,28 @@ func (cl *client) blocking(call, name string, f func() error) (error, bool) {
 	return err, false
 }
 
-// drain reads events until NoEvent (or at most max events when max >= 0); returns false when it stopped early
-func (cl *client) drain(max int) {
+// drain pops events until NoEvent (or at most max events when max >= 0); returns the number of real events popped
+func (cl *client) drain(max int) int {
+	got := 0
 	for n := 0; max < 0 || n < max; n++ {
 		var e utls.QUICEvent
 		_, hung := guard(func() error { e = cl.q.NextEvent(); return nil })
 		if hung {
 			cl.hung = "NextEvent"
-			return
+			return got
 		}
 		cl.calls = append(cl.calls, fmt.Sprintf("NextEvent->%d/%d", int(e.Kind), int(e.Level)))
 		if e.Kind == utls.QUICNoEvent {
 			cl.trace = append(cl.trace, obs{call: "KNextEvent", ret: "(REvent None)"})
-			return
+			return got
 		}
+		got++
 		x := ev{int(e.Kind), int(e.Level)}
 		if x.coq() == "" {
 			cl.unknown = true
 		}
 		cl.allEv = append(cl.allEv, x)
 		cl.trace = append(cl.trace, obs{call: "KNextEvent", ret: "(REvent (Some " + x.coq() + "))"})
-		// attach to the last blocking call
-		for i := len(cl.trace) - 1; i >= 0; i-- {
-			if cl.trace[i].block {
-				cl.trace[i].events = append(cl.trace[i].events, x)
-				break
-			}
-		}
 		switch e.Kind {
 		case utls.QUICWriteData:
 			cl.outData = append(cl.outData, [2]any{e.Level, append([]byte(nil), e.Data...)})
@@ -241,6 +241,7 @@ func (cl *client) drain(max int) {
 			cl.done = true
 		}
 	}
+	return got
 }
 
 // ---- server side (upstream-style QUICConn from the utls package) ----
@@ -287,7 +288,7 @@ type result struct {
 }
 
 func describe(sc scenario) string {
-	return fmt.Sprintf("%s/%s/%s", sc.inj, sc.id, specs[sc.spec].name)
+	return fmt.Sprintf("%s/%s/%s/%s", sc.inj, sc.id, specs[sc.spec].name, sc.driver)
 }
 
 func runOne(c *vh.Ctx, pki *vh.TestPKI, sc scenario, rng interface{ Intn(int) int }) *result {
@@ -368,10 +369,13 @@ func runOne(c *vh.Ctx, pki *vh.TestPKI, sc scenario, rng interface{ Intn(int) in
 		if cl.hung != "" {
 			return
 		}
-		if sc.stress {
-			cl.drain(rng.Intn(4)) // partial drain
-		} else {
+		switch sc.driver {
+		case "drain-all":
 			cl.drain(-1)
+		case "random":
+			cl.drain(rng.Intn(4)) // partial drain
+		default:
+			// eager / feed-first: events are popped one at a time by the pump below
 		}
 		if cl.done {
 			cl.finished = true
@@ -434,7 +438,7 @@ func runOne(c *vh.Ctx, pki *vh.TestPKI, sc scenario, rng interface{ Intn(int) in
 	var pendingToClient []byte
 	pendingLevel := utls.QUICEncryptionLevelInitial
 	step := 0
-	for iter := 0; iter < 400 && cl.hung == "" && !srv.hung; iter++ {
+	for iter := 0; iter < 3000 && cl.hung == "" && !srv.hung; iter++ {
 		step++
 		if step == sc.cutStep {
 			switch sc.inj {
@@ -460,10 +464,61 @@ func runOne(c *vh.Ctx, pki *vh.TestPKI, sc scenario, rng interface{ Intn(int) in
 		}
 		haveC2S := sent < len(cl.outData)
 		haveS2C := len(pendingToClient) > 0 || recv < len(srv.out)
-		if !haveC2S && !haveS2C {
+		canPop := cl.q.VerifPendingEvents() > 0
+		// which action next: "c2s" (client CRYPTO data to the server), "s2c" (a chunk to the client), "pop" (one NextEvent)
+		act := ""
+		switch sc.driver {
+		case "drain-all": // the queue is empty here
+			switch {
+			case haveC2S && (!haveS2C || rng.Intn(2) == 0):
+				act = "c2s"
+			case haveS2C:
+				act = "s2c"
+			}
+		case "eager": // a synchronous driver: act on every event at once, feed replies back at once
+			switch {
+			case haveC2S:
+				act = "c2s"
+			case haveS2C:
+				act = "s2c"
+			case canPop:
+				act = "pop"
+			}
+		case "feed-first":
+			switch {
+			case haveS2C:
+				act = "s2c"
+			case haveC2S:
+				act = "c2s"
+			case canPop:
+				act = "pop"
+			}
+		default: // random
+			var en []string
+			if haveC2S {
+				en = append(en, "c2s")
+			}
+			if haveS2C {
+				en = append(en, "s2c")
+			}
+			if canPop {
+				en = append(en, "pop")
+			}
+			if len(en) > 0 {
+				act = en[rng.Intn(len(en))]
+			}
+		}
+		if act == "" {
 			break
 		}
-		if haveC2S && (!haveS2C || rng.Intn(2) == 0) {
+		if act == "pop" {
+			cl.drain(1)
+			if cl.done {
+				cl.finished = true
+			}
+			continue
+		}
+		if act == "c2s" {
 			d := cl.outData[sent]
 			sent++
 			if srv.err == nil {
@@ -521,6 +576,22 @@ func (cl *client) coqCase(mvOK bool, tpPreset bool) (string, bool) {
 	finished := false
 	hsOK := false
 	failed := false
+	// the i-th event created is the i-th event popped (FIFO): hand every blocking call its share of the stream
+	off := 0
+	for i := range cl.trace {
+		if !cl.trace[i].block {
+			continue
+		}
+		n := cl.trace[i].created
+		if n < 0 || off+n > len(cl.allEv) {
+			return "", false
+		}
+		cl.trace[i].events = cl.allEv[off : off+n]
+		off += n
+	}
+	if off != len(cl.allEv) {
+		return "", false
+	}
 	for _, o := range cl.trace {
 		if !o.block {
 			continue
@@ -668,8 +739,12 @@ func run(c *vh.Ctx) {
 			sc.id = names[c.Rng.Intn(len(names))]
 		}
 		sc.ticket = sc.inj == "ticket" || c.Rng.Intn(4) == 0
-		sc.cutStep = 1 + c.Rng.Intn(6)
-		sc.stress = c.Rng.Intn(5) == 0
+		sc.cutStep = 1 + c.Rng.Intn(12)
+		sc.driver = drivers[(i/len(injections)+i)%len(drivers)]
+		if i >= len(injections)*len(drivers) {
+			sc.driver = drivers[c.Rng.Intn(len(drivers))]
+		}
+		sc.stress = sc.driver == "random"
 		sub := vh.NewRand(c.Seed*1000003 + int64(i))
 		if hangSeen[sc.inj+"/"+sc.id] >= 2 {
 			// this injection already hung twice (4 s of watchdog): reported, do not pay for it again
@@ -680,7 +755,7 @@ func run(c *vh.Ctx) {
 		cl := res.cl
 		key := res.key
 		c.Count("inj:" + sc.inj)
-		input := map[string]any{"scenario": key, "seed": c.Seed, "run": i, "hrr": sc.inj == "hrr", "stress": sc.stress,
+		input := map[string]any{"scenario": key, "seed": c.Seed, "run": i, "hrr": sc.inj == "hrr", "driver": sc.driver,
 			"ticket": sc.ticket, "cut_step": sc.cutStep, "calls": cl.calls}
 
 		// (1) every call returns
@@ -700,7 +775,7 @@ func run(c *vh.Ctx) {
 		if cl.done {
 			completed++
 		}
-		if expectComplete && !sc.stress && !(cl.done && res.srv.done) {
+		if expectComplete && !(cl.done && res.srv.done) {
 			last := ""
 			for _, o := range cl.trace {
 				if o.errTxt != "" {
@@ -715,9 +790,7 @@ func run(c *vh.Ctx) {
 			c.Fail("unexpected-complete/"+key, "handshake completed despite the injected failure", input, "HandshakeDone", "error")
 		}
 		// (3) event order, parameters exactly once
-		if v := orderViolation(cl.allEv, cl.done); v != "" && (!sc.stress || !cl.done) {
-			c.Fail("event-order/"+key, v, input, fmt.Sprint(cl.allEv), "RFC 9001 order")
-		} else if v != "" && !strings.HasPrefix(v, "completed") {
+		if v := orderViolation(cl.allEv, cl.done); v != "" {
 			c.Fail("event-order/"+key, v, input, fmt.Sprint(cl.allEv), "RFC 9001 order")
 		}
 		// (4) ClientHello: empty legacy session id; CRYPTO data are handshake messages only (no CCS)
@@ -766,11 +839,10 @@ func run(c *vh.Ctx) {
 			for j, e := range cl.allEv {
 				items[j] = e.coq()
 			}
-			full := !sc.stress || len(cl.allEv) > 0 && cl.done && cl.allEv[len(cl.allEv)-1] == ev{1, 3}
-			c.OracleCase("order", fmt.Sprintf("COrder %s %s", vh.List(items), vh.Bool(cl.done && full)), "event-order/"+key,
+			c.OracleCase("order", fmt.Sprintf("COrder %s %s", vh.List(items), vh.Bool(cl.done)), "event-order/"+key,
 				"event sequence violates the order proved for the model (RFC 9001)", input, len(items) > 3)
 		}
-		if !sc.stress && !cl.unknown {
+		if !cl.unknown {
 			if term, ok := cl.coqCase(sc.inj != "minversion-low", sc.tpPreset); ok {
 				c.Case("trace", term, fmt.Sprintf("%s|%d|%v", key, len(cl.trace), cl.calls), cl.done || len(cl.trace) > 6,
 					map[string]any{"scenario": key, "calls": cl.calls})
